@@ -3,7 +3,7 @@ import os, re
 from vlib.unit import Builder, Target, Spec, VERIF, scan_assumes
 from vlib.runner import Proof
 from vlib.opaque_profile import opaque_profile
-from vlib.cxx2c import Unsupported, rangefor_indexed
+from vlib.cxx2c import Unsupported, rangefor_indexed, Lowerer, strip_amp
 
 QT = os.path.join(VERIF, 'qtmodel')
 HERE = os.path.dirname(os.path.abspath(__file__))
@@ -41,17 +41,163 @@ def rule_process(lw, node, args):
     raise Unsupported('unknown overload of process: ' + sig)
 
 
+def fam(name):
+    """call of a function-template instantiation (QXmppIqHandling.h): each manager has its own instantiation, lowered under
+    the manager's prefix (the prefix of the function being lowered)"""
+    def rule(lw, node, args):
+        cn = lw.cname.split('_')[0] + '_' + name
+        lw.repo_callees.add(cn)
+        try:
+            rt = lw.ntype(lw.skip(node))
+        except Unsupported:
+            rt = None
+        if rt in lw.p.class_types:
+            t = lw.newtmp()
+            # lowered signature: methods (self, _ret, args...), free functions (_ret, args...)
+            al = ([args[0], '&' + t] + list(args[1:])) if node.get('kind') == 'CXXMemberCallExpr' else (['&' + t] + list(args))
+            lw.pre.append('%s %s; %s(%s);' % (rt, t, cn, ', '.join(al)))
+            return t
+        return '%s(%s)' % (cn, ', '.join(args))
+    return rule
+
+
+def has_kind(n, kind):
+    return n.get('kind') == kind or any(has_kind(c, kind) for c in n.get('inner', []) if isinstance(c, dict))
+
+
+def rule_visit(lw, node, args_unused=None):
+    """std::visit(<generic lambda>, std::move(variant)): a switch over the active alternative whose arms are the bodies of the
+    lambda's operator() specialisations (as instantiated by clang for each alternative), lowered in place.  [&] captures
+    refer to the enclosing function's own variables, so the bodies are lowered in the enclosing scope."""
+    argn = node['inner'][1:]
+    if len(argn) != 2:
+        raise Unsupported('std::visit with %d arguments' % len(argn))
+    lam = lw.skip(argn[0])
+    if lam.get('kind') != 'LambdaExpr':
+        raise Unsupported('std::visit: visitor is not a lambda')
+    var = lw.skip(argn[1])
+    if lw.ntype(var) != 'IqOrError':
+        raise Unsupported('std::visit over %s' % lw.ntype(var))
+    v = lw.addr(var)
+    rec = [c for c in lam['inner'] if c.get('kind') == 'CXXRecordDecl'][0]
+    ftd = [c for c in rec['inner'] if c.get('kind') == 'FunctionTemplateDecl' and c.get('name') == 'operator()']
+    if len(ftd) != 1:
+        raise Unsupported('std::visit: lambda is not generic')
+    specs = [c for c in ftd[0]['inner'] if c.get('kind') == 'CXXMethodDecl' and any(x.get('kind') == 'TemplateArgument' for x in c.get('inner', []))]
+    alts = [('alt0', 'QXmppIq'), ('alt1', 'StanzaError')]
+    saved_pre, saved_out = lw.pre, lw.out
+    lines = ['switch (%s->index)' % v, '{']
+    for k, (field, ct) in enumerate(alts):
+        match = []
+        for sp in specs:
+            pv = [c for c in sp['inner'] if c.get('kind') == 'ParmVarDecl']
+            if len(pv) == 1 and lw.ntype(pv[0]) == ct:
+                match.append((sp, pv[0]))
+        if len(match) != 1:
+            raise Unsupported('std::visit: %d operator() specialisations for alternative %s' % (len(match), ct))
+        sp, pv = match[0]
+        body = [c for c in sp['inner'] if c.get('kind') == 'CompoundStmt'][0]
+        if has_kind(body, 'ReturnStmt'):
+            raise Unsupported('std::visit: visitor body returns a value')
+        lw.out = []
+        cn, _ = lw.declare_local(dict(pv), '', is_ref=True, ctype=ct)
+        lw.stmt(body, 2)
+        lines += ['  case %d:' % k, '  {', '    %s *%s = &%s->%s;' % (ct, cn, v, field)] + lw.out + ['    break;', '  }']
+    lines += ['  default: __CPROVER_assert(0, "MODEL-LIMIT: variant index out of range");', '}']
+    lw.out = saved_out
+    lw.pre = saved_pre + lines
+    lw.fire('std::visit:generic-lambda')
+    return '((void)0)'
+
+
+class C08Lowerer(Lowerer):
+    def stmt(self, n, ind):
+        if n.get('kind') == 'DoStmt':
+            # do { ... } while (false): the body runs exactly once (Q_UNREACHABLE and similar macros)
+            body, cond = n['inner']
+            c = self.skip(cond)
+            if c.get('kind') != 'CXXBoolLiteralExpr' or c.get('value'):
+                raise Unsupported('do-while with a condition other than literal false')
+            if has_kind(body, 'BreakStmt') or has_kind(body, 'ContinueStmt'):
+                raise Unsupported('do-while(false) with break/continue')
+            self.fire('do-while-false')
+            self.block(body, ind)
+            return
+        return Lowerer.stmt(self, n, ind)
+
+    def fncall(self, n):
+        if self.callee_ref(n).get('name') == 'visit' and 'fn:visit/2' in self.p.calls:
+            # the visitor lambda is not evaluated as an argument: its bodies are lowered in place
+            self.fire('fn:visit/2')
+            return rule_visit(self, n)
+        return Lowerer.fncall(self, n)
+
+    def ifstmt(self, n, ind):
+        """`if constexpr`: the condition is a compile-time constant of this instantiation; clang keeps only the selected
+        branch (the discarded one is a NullStmt), so only that branch is lowered"""
+        if not n.get('isConstexpr'):
+            return Lowerer.ifstmt(self, n, ind)
+        if n.get('hasInit') or n.get('hasVar'):
+            raise Unsupported('if constexpr with init')
+        inner = n['inner']
+        c = inner[0]
+        while c.get('kind') in ('ExprWithCleanups', 'MaterializeTemporaryExpr', 'CXXBindTemporaryExpr', 'ImplicitCastExpr') and c.get('inner'):
+            c = c['inner'][0]
+        if c.get('kind') != 'ConstantExpr' or c.get('value') not in ('true', 'false'):
+            raise Unsupported('if constexpr without a constant condition')
+        self.fire('if-constexpr:' + c['value'])
+        sp = '  ' * ind
+        self.emit('%s/* if constexpr (%s) */' % (sp, c['value']))
+        if c['value'] == 'true':
+            self.block(inner[1], ind)
+        elif len(inner) > 2:
+            if inner[2].get('kind') == 'IfStmt':
+                self.ifstmt(inner[2], ind)
+            else:
+                self.block(inner[2], ind)
+
+
+def decomp_tuple(lw, v, sp):
+    """auto [a, b, c] = f();  ->  the tuple is kept in a temporary, the bindings name its members"""
+    init = lw.skip([c for c in v['inner'] if c.get('kind') not in ('BindingDecl',)][0])
+    e = lw.expr(init)
+    lw.flush(sp)
+    bs = [c for c in v['inner'] if c.get('kind') == 'BindingDecl']
+    if len(bs) != 3:
+        raise Unsupported('decomposition of TupleBQQ into %d names' % len(bs))
+    for k, bnd in enumerate(bs):
+        lw.locals[bnd['id']] = ('%s.f%d' % (e, k), 'bool' if k == 0 else 'qstr', False)
+
+
+def disco_capabilities(lw, node, args):
+    t = lw.newtmp()
+    lw.repo_callees.add('Disco_capabilities')
+    lw.pre.append('QXmppIq %s; Disco_capabilities(%s, &%s);' % (t, args[0], t))
+    return t
+
+
 def profile():
     types = {c: 'QXmppIq' for c in IQ_CLASSES}
     types.update({
         'QXmppStanza::Error': 'StanzaError', 'QXmppPresence': 'QXmppPresence', 'QXmppMessage': 'QXmppMessage',
         'QXmppPacket': 'QXmppIq',
         'std::unique_ptr<QXmppOutgoingClientPrivate>': 'QXmppOutgoingClientPrivate*',
-        'QXmpp::Private::StreamAckManager': 'StreamAckManager',
+        'QXmpp::Private::StreamAckManager': 'StreamAckManager', 'QXmpp::Private::OutgoingIqManager': 'OutgoingIqManager',
+        'QXmppStreamFeatures': 'QXmppStreamFeatures', 'QXmpp::Private::HandleElementResult': 'int',
+        'std::variant<StreamErrorElement,QXmppError>': 'StreamErrVariant', 'std::variant<QXmpp::Private::StreamErrorElement,QXmppError>': 'StreamErrVariant',
+        'QXmpp::Private::StreamErrorElement': 'StreamErrorElement', 'typename remove_reference<StreamErrorElement>::type': 'StreamErrorElement',
+        'add_pointer_t<QXmpp::Private::StreamErrorElement>': 'StreamErrorElement*',
+        'QXmppOutgoingClient': 'QXmppOutgoingClient',
         'QList<QXmppClientExtension*>': 'ExtList', 'QXmppClientExtension': 'QXmppClientExtension', 'QXmppE2eeExtension': 'QXmppE2eeExtension',
         'std::optional<QXmppE2eeMetadata>': 'OptE2ee', 'std::unique_ptr<QXmppClientPrivate>': 'QXmppClientPrivate*',
         'std::unique_ptr<QXmppVCardManagerPrivate>': 'QXmppVCardManagerPrivate*',
         'std::unique_ptr<QXmppRosterManagerPrivate>': 'QXmppRosterManagerPrivate*',
+        'std::tuple<bool,QString,QString>': 'TupleBQQ',
+        'QXmppVersionManager': 'QXmppVersionManager', 'QXmppEntityTimeManager': 'QXmppEntityTimeManager', 'QXmppDiscoveryManager': 'QXmppDiscoveryManager',
+        'std::unique_ptr<QXmppDiscoveryManagerPrivate>': 'QXmppDiscoveryManagerPrivate*',
+        'std::variant<QXmppEntityTimeIq,QXmppStanza::Error>': 'IqOrError', 'std::variant<QXmppEntityTimeIq,Error>': 'IqOrError',
+        'std::variant<QXmppDiscoveryIq,QXmppStanza::Error>': 'IqOrError', 'std::variant<QXmppDiscoveryIq,Error>': 'IqOrError',
+        'QDateTime': 'qdatetime', 'QTimeZone': 'qtimezone', 'QXmppDiscoveryIq::QueryType': 'int',
         'QList<QXmppRosterIq::Item>': 'ItemList', 'QXmppRosterIq::Item': 'RosterItem', 'QMap<QString,QXmppRosterIq::Item>': 'EntryMap',
         'QXmppRosterIq::Item::SubscriptionType': 'int', 'QXmppClient': 'QXmppClient',
         'QXmpp::SceMode': 'int',
@@ -78,6 +224,21 @@ def profile():
         '*::sendPacket/1': ('expr', 'ev_emit({1})'),
         '*::reply/2': ('expr', 'ev_emit({1})'),
         'op->:QXmppOutgoingClientPrivate*': ('arg', 0),
+        # ---- QXmppOutgoingClient::handleElement (units/C08/stream.h)
+        'QXmppOutgoingClient::streamAckManager/0': ('expr', '{0}->d->streamAckManager'),
+        'QXmppOutgoingClient::iqManager/0': ('expr', '{0}->d->iqManager'),
+        'StreamAckManager::handleStanza/1': ('callee', 'SAM_handleStanza'),
+        'OutgoingIqManager::handleStanza/1': ('callee', 'OIM_handleStanza'),
+        # Q_EMIT elementReceived(nodeRecv, handled): connected to QXmppClient::_q_elementReceived (QXmppClient.cpp:304-305, direct connection)
+        'QXmppOutgoingClient::elementReceived/2': ('expr', 'Client_q_elementReceived(gh_the_client, {1}, &{2})'),
+        'fn:isStreamFeatures/1': ('callee', 'QXmppStreamFeatures_isStreamFeatures'),
+        'ctor:QXmppStreamFeatures()': ('zero',),
+        'QXmppStreamFeatures::parse/1': ('callee', 'QXmppStreamFeatures_parse'),
+        'QXmppOutgoingClient::handleStreamFeatures/1': ('callee', 'OC_handleStreamFeatures'),
+        'QXmppOutgoingClient::handleStreamError/1': ('callee', 'OC_handleStreamError'),
+        'QXmppOutgoingClient::handleStanza/1': ('callee', 'OC_handleStanza'),
+        'fn:fromDom/1': ('calleeret', 'StreamErrorElement_fromDom', 'StreamErrVariant'),
+        'fn:get_if/1': ('fn', 'StreamErrVariant_getIf0'),
         # ---- other stanza kinds on the fallback path
         'ctor:QXmppPresence()': ('zero',),
         'ctor:QXmppMessage()': ('zero',),
@@ -93,7 +254,7 @@ def profile():
         'op->:QXmppClientPrivate*': ('arg', 0),
         'OptE2ee::has_value/0': ('field', 'has'),
         'ctor:OptE2ee(std::nullopt_t)': ctor_nullopt,
-        'rangefor:ExtList': rangefor_indexed('{r}->n', 'ExtList_at({r}, {i})'),
+        'rangefor:ExtList': rangefor_indexed('({r})->n', 'ExtList_at({r}, {i})'),
         'QXmppClientExtension::handleStanza/1': ('callee', 'Ext_handleStanza1'),
         'QXmppClientExtension::handleStanza/2': ('callee', 'Ext_handleStanza2'),
         'fn:process': rule_process,
@@ -106,7 +267,7 @@ def profile():
         'op->:QXmppRosterManagerPrivate*': ('arg', 0),
         'fn:isRosterIq/1': ('callee', 'QXmppRosterIq_isRosterIq'),
         'QXmppIq::items/0': ('fnret', 'RosterIq_items', 'ItemList'),
-        'rangefor:ItemList': rangefor_indexed('{r}->n', '(*ItemList_at({r}, {i}))'),
+        'rangefor:ItemList': rangefor_indexed('({r})->n', '(*ItemList_at({r}, {i}))'),
         'RosterItem::bareJid/0': ('expr', '{v0}.bareJid'),
         'RosterItem::subscriptionType/0': ('expr', '{v0}.subscriptionType'),
         'EntryMap::remove/1': ('fn', 'EntryMap_remove'),
@@ -115,6 +276,51 @@ def profile():
         '*::itemRemoved/1': ('expr', 'ev_signal()'),
         '*::itemAdded/1': ('expr', 'ev_signal()'),
         '*::itemChanged/1': ('expr', 'ev_signal()'),
+        # ---- QXmpp::handleIqRequests family (function templates, one instantiation per manager)
+        'fn:handleIqRequests/3': fam('handleIqRequests3'),
+        'fn:handleIqRequests/4': fam('handleIqRequests4'),
+        'fn:handleIqType/6': fam('handleIqType'),
+        'fn:invokeIqHandler/2': fam('invokeIqHandler'),
+        'fn:processHandleIqResult/5': fam('processHandleIqResult'),
+        'fn:checkIqType/2': fam('checkIqType'),
+        'QXmppVersionManager::handleIq/1': fam('handleIq'),
+        'QXmppEntityTimeManager::handleIq/1': fam('handleIq'),
+        'QXmppDiscoveryManager::handleIq/1': fam('handleIq'),
+        'fn:forward/1': lambda lw, node, args: strip_amp(args[0]),      # std::forward<T>(x) is x
+        'fn:visit/2': ('custom', 'rule_visit'),
+        'fn:checkIsIqRequest/1': ('calleeret', 'checkIsIqRequest', 'TupleBQQ'),
+        'fn:sendIqReply/5': ('callee', 'sendIqReply'),
+        'decomposition:std::tuple<bool,QString,QString>': decomp_tuple,
+        'ctor:TupleBQQ(bool,qstr,qstr)': ('fn', 'TupleBQQ_ctor'),
+        'ctor:IqOrError(QXmppIq)': ('fn', 'IqOrError_fromIq'),
+        'ctor:IqOrError(StanzaError)': ('fn', 'IqOrError_fromError'),
+        'QXmppIq::setE2eeMetadata/1': ('fn', 'QXmppIq_setE2ee'),
+        'fn:isVersionIq/1': ('callee', 'Version_isIq'),
+        'fn:isEntityTimeIq/1': ('callee', 'Time_isIq'),
+        'fn:isDiscoveryIq/1': ('callee', 'Disco_isIq'),
+        '*::versionReceived/1': ('expr', 'ev_signal()'),
+        '*::timeReceived/1': ('expr', 'ev_signal()'),
+        '*::infoReceived/1': ('expr', 'ev_signal()'),
+        '*::itemsReceived/1': ('expr', 'ev_signal()'),
+        # QXmppVersionManager::handleIq: payload of the answer
+        'QXmppIq::setName/1': ('fn', 'QXmppIq_setStr'), 'QXmppIq::setVersion/1': ('fn', 'QXmppIq_setStr'), 'QXmppIq::setOs/1': ('fn', 'QXmppIq_setStr'),
+        'QXmppVersionManager::clientName/0': ('expr', 'nondet_qstr()'), 'QXmppVersionManager::clientVersion/0': ('expr', 'nondet_qstr()'),
+        'QXmppVersionManager::clientOs/0': ('expr', 'nondet_qstr()'),
+        # QXmppEntityTimeManager::handleIq
+        'fn:currentDateTime/0': ('expr', 'nondet_long()'),
+        'qdatetime::toUTC/0': ('expr', 'nondet_long()'),
+        'qdatetime::setTimeZone/1': ('fnmut', 'qdatetime_setTimeZone'),
+        'ctor:qtimezone(int)': ('expr', '{0}'),
+        'qdatetime::secsTo/1': ('expr', '((long long)nondet_long())'),
+        'QXmppIq::setUtc/1': ('fn', 'QXmppIq_setLong'), 'QXmppIq::setTzo/1': ('fn', 'QXmppIq_setInt'),
+        # QXmppDiscoveryManager::handleIq
+        'QXmppIq::queryNode/0': ('expr', '{v0}.queryNode'),
+        'QXmppIq::queryType/0': ('expr', '{v0}.queryType'),
+        'QXmppIq::setQueryNode/1': ('fn', 'QXmppIq_setQueryNode'),
+        'QXmppIq::setQueryType/1': ('fn', 'QXmppIq_setQueryType'),
+        'QXmppDiscoveryManager::capabilities/0': disco_capabilities,
+        'op->:QXmppDiscoveryManagerPrivate*': ('arg', 0),
+        'fn:__builtin_unreachable/0': ('expr', '__CPROVER_assert(0, "[post.no_undefined_behaviour] Q_UNREACHABLE() reached")'),
         'qdom::firstChildElement/0': ('expr', 'qdom_firstChildElement({0}, 0, 0)'),
         'fn:isVCard/1': ('callee', 'QXmppVCardIq_isVCard'),
         'fn:isIqType/3': ('callee', 'isIqType'),
@@ -122,18 +328,41 @@ def profile():
         'QXmppE2eeExtension::isEncrypted/1': ('callee', 'E2eeExt_isEncrypted'),
     }
     del calls['ctor:QXmppIq(QXmppIq)']
-    return opaque_profile(types=types, class_types={'QXmppIq', 'StanzaError', 'QXmppPresence', 'QXmppMessage', 'StreamAckManager', 'ExtList', 'OptE2ee', 'ItemList', 'RosterItem', 'EntryMap'},
+    return opaque_profile(types=types, class_types={'QXmppIq', 'StanzaError', 'QXmppPresence', 'QXmppMessage', 'StreamAckManager', 'OutgoingIqManager', 'QXmppStreamFeatures', 'StreamErrVariant', 'StreamErrorElement', 'ExtList', 'OptE2ee', 'ItemList', 'RosterItem', 'EntryMap', 'TupleBQQ', 'IqOrError'},
                           calls=calls, pure_fns={'client', 'configuration', 'jidBare'})
 
 
-STRUCTS = '''
-typedef struct StreamAckManager { int opaque; } StreamAckManager;
-typedef struct QXmppOutgoingClientPrivate { StreamAckManager streamAckManager; } QXmppOutgoingClientPrivate;
-typedef struct QXmppOutgoingClient { QXmppOutgoingClientPrivate *d; } QXmppOutgoingClient;
-'''
+STRUCTS = ''
 
 ENUMS = {'QXmppIq::Type': {'Error', 'Get', 'Set', 'Result'},
          'QXmppStanza::Error::Condition': {'FeatureNotImplemented', 'ServiceUnavailable'}}
+
+
+ASSUMED = [
+    'A-STR opaque strings: equality only; literals have distinct ids (qtmodel/opaque.h)',
+    'A-DOM abstract DOM: tagName/namespaceURI/attribute are functions of the node; firstChildElement returns null or a matching child; the same query gives the same answer (qtmodel/opaque.h)',
+    'A-JID jidToBareJid is an uninterpreted idempotent function (qtmodel/opaque.h)',
+    'A-IQ QXmppIq and its subclasses are one value struct; constructor (stores type, fresh id), id/to/from/type getters and setId/setTo/setType/setError mirror src/base/QXmppStanza.cpp / QXmppIq.cpp; payload setters do not touch addressing (units/C08/model.h)',
+    'A-PARSE QXmppIq::parse: id/to/from = the attributes, type = enumerator named by the type attribute, Get when absent/unknown; QXmppDiscoveryIq queryType is one of its two enumerators (units/C08/callees.h; src/base/QXmppIq.cpp:82-90, QXmppStanza.cpp:1022-1027)',
+    'A-EMIT QXmppClient::sendPacket, QXmppClient::reply and StreamAckManager::send hand exactly the given stanza to the stream, once: they are the emission events the property counts (socket state, serialisation, e2ee encryption inside reply() not represented)',
+    'A-EXT every installed extension (virtual QXmppClientExtension::handleStanza, both overloads) satisfies the manager contract (units/C08/chain.h); VERIFIED for the vCard, roster, version, entity-time and discovery managers, ASSUMED for all others',
+    'A-SLOT Q_EMIT elementReceived(...) runs QXmppClient::_q_elementReceived (connection at src/client/QXmppClient.cpp:304-305); receivers of all other Qt signals are application code and emit nothing that is counted',
+    'A-SM StreamAckManager::handleStanza never consumes or answers an <iq/> (src/base/QXmppStreamManagement.cpp:172-188; property C09)',
+    'A-IQMGR OutgoingIqManager::handleStanza returns true only for type result|error and sends nothing (src/client/QXmppOutgoingClient.cpp:1235-1283; property C07)',
+    'A-MSG MessagePipeline::process(client, extensions, QXmppMessage&&), QXmppMessage::parse, QXmppPresence::parse, QXmppStreamFeatures::parse, handleStreamFeatures, handleStreamError, StreamErrorElement::fromDom: unconstrained / write their object only (only reached by non-IQ elements)',
+    'A-CAPS QXmppDiscoveryManager::capabilities() writes only its result and returns an IQ whose type is an enumerator of QXmppIq::Type; client(), configuration().jidBare(), clientName/Version/Os are pure getters',
+    'A-ROSTER-DATA QList<QXmppRosterIq::Item> and QMap<QString, Item> are unconstrained (symbolic length, arbitrary members): the roster view is property C12',
+    'A-QDATETIME Qt date/time functions return some value',
+    'A-ADDR a reply without to is handled by the own server on behalf of the account, i.e. it is addressed to the own bare JID (RFC 6120 10.3): ADDRESSED_TO in units/C08/model.h',
+]
+NOT_COVERED = [
+    'the ~20 other bundled managers and application extensions: covered only through the assumed manager contract A-EXT',
+    'asynchronous IQ handlers (handleIq returning QXmppTask; processHandleIqResult(QXmppTask<T>) is not instantiated by the five managers): "will be answered later" is not a per-call fact',
+    'QXmppOutgoingClient::handlePacketReceived and the listener variant (SASL / bind / SM-resume managers own the stream before the session is open)',
+    'an <iq/> outside jabber:client (rejected by the stream) and IQs whose type attribute is absent or unknown beyond "never answered"',
+    'the error condition of the injectIq fallback is checked only in so far as the reply is an error-or-result IQ (the stream fallback is checked for feature-not-implemented)',
+    'delivery: socket state, stream-management queueing, XML serialisation of the reply (C01/C09), encryption inside QXmppClient::reply',
+]
 
 
 class Part:
@@ -148,6 +377,7 @@ SELECT_TMPL = '#if defined(SEL_%s)\n__CPROVER_requires(%s)\n'
 
 
 def build(work, tier):
+    os.environ.setdefault('VERIF_JOBS', '3')       # at most three cbmc processes at a time (shared machine)
     prof = profile()
     b = Builder('C08', work, prof)
     parts = {}
@@ -178,57 +408,103 @@ def build(work, tier):
         add(tgt, Spec(b.subst(text)), 'void h_%s(void) { %s *self; qdom element; %s(self, element); }' % (tgt.cname, this, tgt.cname),
             selections=selections, **kw)
 
-    # the enum constants the specification itself speaks about
-    b.need_enums.setdefault((os.path.join(b_repo(), OC), ()), {}).update({k: set(v) for k, v in ENUMS.items()})
+    def register():
+        # the enum constants the specification itself speaks about
+        b.need_enums.setdefault((os.path.join(b_repo(), OC), ()), {}).update({k: set(v) for k, v in ENUMS.items()})
 
-    # ------------------------------------------------------------------ stream fallback
-    add(Target(OC, 'QXmppOutgoingClient::handleStanza', 'handleStanza', 'OC_handleStanza', this='QXmppOutgoingClient'),
-        'oc_handleStanza.spec', 'void h_OC_handleStanza(void) { QXmppOutgoingClient *self; qdom stanza; OC_handleStanza(self, stanza); }',
-        replace=['QXmppIq_parse', 'QXmppPresence_parse', 'QXmppMessage_parse'],
-        note='fallback of the stream: every element, every id / from / type string (opaque)')
-    # ------------------------------------------------------------------ extension chain
-    add(Target(CL, 'StanzaPipeline::process', 'process', 'SP_process'),
-        'sp_process.spec', 'void h_SP_process(void) { const ExtList *extensions; qdom element; const OptE2ee *e2ee; SP_process(extensions, element, e2ee); }',
-        replace=['Ext_handleStanza1', 'Ext_handleStanza2'], kind='contract', loops=1,
-        note='chain lemma on the real loop: any number of extensions, each satisfying the manager contract; loop closed by loop contract')
-    add(Target(CL, 'MessagePipeline::process', 'process', 'MP_process4', nparams=4),
-        'mp_process4.spec', 'void h_MP_process4(void) { QXmppClient *client; const ExtList *extensions; QXmppE2eeExtension *e2eeExt; qdom element; MP_process4(client, extensions, e2eeExt, element); }',
-        replace=['MP_process3', 'QXmppMessage_parse', 'QXmppMessage_parse2', 'E2eeExt_isEncrypted'])
-    add(Target(CL, 'QXmppClient::_q_elementReceived', '_q_elementReceived', 'Client_q_elementReceived', this='QXmppClient'),
-        'cl_elementReceived.spec', 'void h_Client_q_elementReceived(void) { QXmppClient *self; qdom element; bool *handled; Client_q_elementReceived(self, element, handled); }',
-        uses=['SP_process', 'MP_process4'])
-    add(Target(CL, 'QXmppClient::injectIq', 'injectIq', 'Client_injectIq', this='QXmppClient'),
-        'cl_injectIq.spec', 'void h_Client_injectIq(void) { QXmppClient *self; qdom element; const OptE2ee *e2ee; Client_injectIq(self, element, e2ee); }',
-        uses=['SP_process'])
-    # ------------------------------------------------------------------ helpers verified inline
-    helper(Target(UTILS, 'QXmpp::Private::isIqType', 'isIqType', 'isIqType'))
-    helper(Target('src/base/QXmppVCardIq.cpp', 'QXmppVCardIq::isVCard', 'isVCard', 'QXmppVCardIq_isVCard'), deps=['isIqType'])
-    # ------------------------------------------------------------------ managers
-    manager(Target('src/client/QXmppVCardManager.cpp', 'QXmppVCardManager::handleStanza', 'handleStanza', 'VCard_handleStanza', this='QXmppVCardManager'),
-            fresh='__CPROVER_is_fresh(self, sizeof(*self)) && __CPROVER_is_fresh(self->d, sizeof(*self->d))',
-            assigns=', self->d->clientVCard, self->d->isClientVCardReceived',
-            findings=[('VCARD_REQUEST', 'IS_REQUEST(element) && PAYLOAD_IS(element, S("vCard"), S("vcard-temp"))', 'C08-vcard-request-swallowed')],
-            replace=['QXmppIq_parse'], helpers_=['QXmppVCardIq_isVCard'],
-            note='every element; vCard requests (get/set) split off as the recorded finding')
+        # ------------------------------------------------------------------ stream fallback
+        add(Target(OC, 'QXmppOutgoingClient::handleStanza', 'handleStanza', 'OC_handleStanza', this='QXmppOutgoingClient'),
+            'oc_handleStanza.spec', 'void h_OC_handleStanza(void) { QXmppOutgoingClient *self; qdom stanza; OC_handleStanza(self, stanza); }',
+            replace=['QXmppIq_parse', 'QXmppPresence_parse', 'QXmppMessage_parse'],
+            note='fallback of the stream: every element, every id / from / type string (opaque)')
+        # ------------------------------------------------------------------ extension chain
+        add(Target(CL, 'StanzaPipeline::process', 'process', 'SP_process'),
+            'sp_process.spec', 'void h_SP_process(void) { const ExtList *extensions; qdom element; const OptE2ee *e2ee; SP_process(extensions, element, e2ee); }',
+            replace=['Ext_handleStanza1', 'Ext_handleStanza2'], kind='contract', loops=1,
+            note='chain lemma on the real loop: any number of extensions, each satisfying the manager contract; loop closed by loop contract')
+        add(Target(CL, 'MessagePipeline::process', 'process', 'MP_process4', nparams=4),
+            'mp_process4.spec', 'void h_MP_process4(void) { QXmppClient *client; const ExtList *extensions; QXmppE2eeExtension *e2eeExt; qdom element; MP_process4(client, extensions, e2eeExt, element); }',
+            replace=['MP_process3', 'QXmppMessage_parse', 'QXmppMessage_parse2', 'E2eeExt_isEncrypted'])
+        add(Target(CL, 'QXmppClient::_q_elementReceived', '_q_elementReceived', 'Client_q_elementReceived', this='QXmppClient'),
+            'cl_elementReceived.spec', 'void h_Client_q_elementReceived(void) { QXmppClient *self; qdom element; bool handled = nondet_bool(); Client_q_elementReceived(self, element, &handled); }',
+            uses=['SP_process', 'MP_process4'])
+        add(Target(CL, 'QXmppClient::injectIq', 'injectIq', 'Client_injectIq', this='QXmppClient'),
+            'cl_injectIq.spec', 'void h_Client_injectIq(void) { QXmppClient *self; qdom element; const OptE2ee *e2ee; Client_injectIq(self, element, e2ee); }',
+            uses=['SP_process'])
+        # ------------------------------------------------------------------ the stream's entry point: the whole chain on the real code
+        helper(Target('src/base/QXmppStreamFeatures.cpp', 'QXmppStreamFeatures::isStreamFeatures', 'isStreamFeatures', 'QXmppStreamFeatures_isStreamFeatures'))
+        add(Target(OC, 'QXmppOutgoingClient::handleElement', 'handleElement', 'OC_handleElement', this='QXmppOutgoingClient'),
+            'oc_handleElement.spec', 'void h_OC_handleElement(void) { QXmppOutgoingClient *self; qdom nodeRecv; OC_handleElement(self, nodeRecv); }',
+            replace=['SAM_handleStanza', 'OIM_handleStanza', 'QXmppStreamFeatures_parse', 'OC_handleStreamFeatures', 'OC_handleStreamError', 'StreamErrorElement_fromDom'],
+            uses=['Client_q_elementReceived', 'OC_handleStanza'], helpers_=['QXmppStreamFeatures_isStreamFeatures'],
+            note='END-TO-END on the real composition: SM/IQ-response managers, the client slot (extension chain by contract), the fallback (by contract)')
+        # ------------------------------------------------------------------ helpers verified inline
+        helper(Target(UTILS, 'QXmpp::Private::isIqType', 'isIqType', 'isIqType'))
+        helper(Target('src/base/QXmppVCardIq.cpp', 'QXmppVCardIq::isVCard', 'isVCard', 'QXmppVCardIq_isVCard'), deps=['isIqType'])
+        # ------------------------------------------------------------------ managers
+        manager(Target('src/client/QXmppVCardManager.cpp', 'QXmppVCardManager::handleStanza', 'handleStanza', 'VCard_handleStanza', this='QXmppVCardManager'),
+                fresh='__CPROVER_is_fresh(self, sizeof(*self)) && __CPROVER_is_fresh(self->d, sizeof(*self->d))',
+                assigns=', self->d->clientVCard, self->d->isClientVCardReceived',
+                findings=[('VCARD_REQUEST', 'IS_REQUEST(element) && PAYLOAD_IS(element, S("vCard"), S("vcard-temp"))', 'C08-vcard-request-swallowed')],
+                replace=['QXmppIq_parse'], helpers_=['QXmppVCardIq_isVCard'],
+                note='every element; vCard requests (get/set) split off as the recorded finding')
 
-    helper(Target('src/base/QXmppRosterIq.cpp', 'QXmppRosterIq::isRosterIq', 'isRosterIq', 'QXmppRosterIq_isRosterIq'), deps=['isIqType'])
-    ROSTER = 'PAYLOAD_IS(element, S("query"), S("jabber:iq:roster")) && IS_IQ(element) && ROSTER_AUTHORISED(element)'
-    manager(Target('src/client/QXmppRosterManager.cpp', 'QXmppRosterManager::handleStanza', 'handleStanza', 'Roster_handleStanza', this='QXmppRosterManager'),
-            fresh='__CPROVER_is_fresh(self, sizeof(*self)) && __CPROVER_is_fresh(self->d, sizeof(*self->d))',
-            assigns=', self->d->entries, gh_item',
-            findings=[('ROSTER_GET', ROSTER + ' && IQ_TYPE_ATTR(element) == S("get")', 'C08-roster-get-swallowed'),
-                      ('ROSTER_SET_OWN_FULL_JID', ROSTER + ' && IQ_TYPE_ATTR(element) == S("set") && FROM(element) != 0 && FROM(element) != gh_cfg_jidBare', 'C08-roster-set-own-resource-misaddressed')],
-            loops_text='''## loop 0
-__CPROVER_assigns(__i0, gh_signals, gh_item, self->d->entries)
-//: inv.index_in_range
-__CPROVER_loop_invariant(0 <= __i0 && __i0 <= items.n)
-__CPROVER_decreases(items.n - __i0)
-''',
-            replace=['QXmppIq_parse'], helpers_=['QXmppRosterIq_isRosterIq'], kind='contract', loops=1,
-            note='every element, every number of push items (loop contract); authorised get and set-from-own-full-JID split off as recorded findings')
+        helper(Target('src/base/QXmppRosterIq.cpp', 'QXmppRosterIq::isRosterIq', 'isRosterIq', 'QXmppRosterIq_isRosterIq'), deps=['isIqType'])
+        ROSTER = 'PAYLOAD_IS(element, S("query"), S("jabber:iq:roster")) && IS_IQ(element) && ROSTER_AUTHORISED(element)'
+        manager(Target('src/client/QXmppRosterManager.cpp', 'QXmppRosterManager::handleStanza', 'handleStanza', 'Roster_handleStanza', this='QXmppRosterManager'),
+                fresh='__CPROVER_is_fresh(self, sizeof(*self)) && __CPROVER_is_fresh(self->d, sizeof(*self->d))',
+                assigns=', self->d->entries, gh_item',
+                findings=[('ROSTER_GET', ROSTER + ' && IQ_TYPE_ATTR(element) == S("get")', 'C08-roster-get-swallowed'),
+                          ('ROSTER_SET_OWN_FULL_JID', ROSTER + ' && IQ_TYPE_ATTR(element) == S("set") && FROM(element) != 0 && FROM(element) != gh_cfg_jidBare', 'C08-roster-set-own-resource-misaddressed')],
+                loops_text='''## loop 0
+    __CPROVER_assigns(__i0, gh_signals, gh_item, self->d->entries)
+    //: inv.index_in_range
+    __CPROVER_loop_invariant(0 <= __i0 && __i0 <= items.n)
+    __CPROVER_decreases(items.n - __i0)
+    ''',
+                replace=['QXmppIq_parse'], helpers_=['QXmppRosterIq_isRosterIq'], kind='contract', loops=1,
+                note='every element, every number of push items (loop contract); authorised get and set-from-own-full-JID split off as recorded findings')
+
+        IQH = 'src/client/QXmppIqHandling.cpp'
+        helper(Target(IQH, 'checkIsIqRequest', 'checkIsIqRequest', 'checkIsIqRequest'))
+        helper(Target(IQH, 'sendIqReply', 'sendIqReply', 'sendIqReply'))
+
+        def family(prefix, mgr, iqcls, src, iqsrc, isfn, variant, **kw):
+            T = lambda filt, name, cname, **k: Target(src, filt, name, prefix + '_' + cname, lowerer_cls=C08Lowerer, **k)
+            msig = mgr + ' *'
+            helper(Target(iqsrc, iqcls + '::checkIqType', 'checkIqType', prefix + '_checkIqType'))
+            helper(Target(iqsrc, iqcls + '::' + isfn, isfn, prefix + '_isIq'), deps=['isIqType'])
+            if kw.get('handleIq_contract'):
+                pass
+            else:
+                helper(T(mgr + '::handleIq', 'handleIq', 'handleIq', this=mgr))
+            helper(T('processHandleIqResult', 'processHandleIqResult', 'processHandleIqResult', sig=('std::variant<' + iqcls) if variant else (iqcls + ' &&')), deps=['sendIqReply'])
+            helper(T('invokeIqHandler', 'invokeIqHandler', 'invokeIqHandler', sig=msig), deps=[prefix + '_handleIq'])
+            helper(T('handleIqType', 'handleIqType', 'handleIqType', sig=msig), deps=[prefix + '_checkIqType', prefix + '_invokeIqHandler', prefix + '_processHandleIqResult'])
+            helper(T('handleIqRequests', 'handleIqRequests', 'handleIqRequests4', sig=msig, nparams=4), deps=['checkIsIqRequest', prefix + '_handleIqType'])
+            helper(T('handleIqRequests', 'handleIqRequests', 'handleIqRequests3', sig=msig, nparams=3), deps=[prefix + '_handleIqRequests4'])
+            manager(T(mgr + '::handleStanza', 'handleStanza', 'handleStanza', this=mgr),
+                    fresh=kw.get('fresh', '__CPROVER_is_fresh(self, sizeof(*self))'), replace=['QXmppIq_parse'] + kw.get('replace', []),
+                    helpers_=[prefix + '_handleIqRequests3', prefix + '_isIq'],
+                    note='whole manager through every layer of the real QXmpp::handleIqRequests templates as instantiated for it')
+
+        family('Time', 'QXmppEntityTimeManager', 'QXmppEntityTimeIq', 'src/client/QXmppEntityTimeManager.cpp', 'src/base/QXmppEntityTimeIq.cpp', 'isEntityTimeIq', True)
+        family('Disco', 'QXmppDiscoveryManager', 'QXmppDiscoveryIq', 'src/client/QXmppDiscoveryManager.cpp', 'src/base/QXmppDiscoveryIq.cpp', 'isDiscoveryIq', True,
+               fresh='__CPROVER_is_fresh(self, sizeof(*self)) && __CPROVER_is_fresh(self->d, sizeof(*self->d))', replace=['Disco_capabilities'])
+        family('Version', 'QXmppVersionManager', 'QXmppVersionIq', 'src/client/QXmppVersionManager.cpp', 'src/base/QXmppVersionIq.cpp', 'isVersionIq', False)
+
+    # pass 1 only collects the (translation unit, filter) pairs, so that clang can dump them concurrently; pass 2 lowers
+    wanted = []
+    b.lower = lambda tgt, sp=None, **k: (wanted.append((tgt.src, tgt.filt, tgt.extra_flags)), 'void _dry(void)\n{\n}')[1]
+    register()
+    del b.lower
+    parts.clear()
+    helpers.clear()
+    prefetch(wanted)
+    register()
 
     ctxt = dedupe_lines(b.context())
-    pre = ''.join(b.subst(rd(n)) for n in ('model.h', 'callees.h', 'chain.h', 'managers.h'))
+    pre = ''.join(b.subst(rd(n)) for n in ('model.h', 'callees.h', 'chain.h', 'managers.h', 'stream.h'))
 
     def closure(names, acc):
         for n in names:
@@ -253,13 +529,36 @@ __CPROVER_decreases(items.n - __i0)
                 p.finding = fid
                 p.note = 'restricted to the discriminator of finding %s' % fid
             proofs.append(p)
-    alltext = ''.join(rd(n) for n in ('model.h', 'callees.h', 'chain.h', 'managers.h')) + open(os.path.join(QT, 'opaque.h')).read()
+    explanation = 'reply-count contract (ghost emission log) on the real dispatch chain, the fallbacks and five managers; see units/C08/manifest.json'
+    if tier == 'thorough':
+        explanation += ' | ' + native_corpus_summary()
+    alltext = ''.join(rd(n) for n in ('model.h', 'callees.h', 'chain.h', 'managers.h', 'stream.h')) + open(os.path.join(QT, 'opaque.h')).read()
     return {
         'proofs': proofs, 'functions': b.functions, 'dropped': b.dropped, 'fired': b.fired, 'hooks': [],
-        'assumed': [],
+        'assumed': ASSUMED,
         'assumes': scan_assumes(alltext),
-        'not_covered': [],
+        'not_covered': NOT_COVERED,
+        'explanation': explanation,
     }
+
+
+def prefetch(wanted):
+    """run the clang AST dumps of all targets concurrently (each is a separate clang process; results land in astx's cache)"""
+    from concurrent.futures import ThreadPoolExecutor
+    from vlib import astx
+    uniq = []
+    for w in wanted:
+        if w not in uniq:
+            uniq.append(w)
+
+    def one(w):
+        try:
+            astx.dump(*w)
+        except Exception:
+            pass        # reported by the real lowering pass
+
+    with ThreadPoolExecutor(max_workers=int(os.environ.get('VERIF_CLANG_JOBS', '4'))) as ex:
+        list(ex.map(one, uniq))
 
 
 def dedupe_lines(text):
@@ -276,3 +575,107 @@ def dedupe_lines(text):
 def b_repo():
     from vlib.configure import REPO
     return REPO
+
+
+# ---------------------------------------------------------------------------------------------------------------------
+# native replay: a failed obligation is turned into a concrete stanza by running a systematic corpus of IQs through the
+# REAL library (units/C08/replay_iq.cpp) and keeping the first one whose end-to-end postcondition is violated
+OWN_BARE = 'me@example.org'
+FROMS = [None, OWN_BARE, OWN_BARE + '/other', 'eve@evil.example/x', 'example.org']
+PAYLOADS = {
+    'vcard': "<vCard xmlns='vcard-temp'/>",
+    'roster': "<query xmlns='jabber:iq:roster'/>",
+    'roster-item': "<query xmlns='jabber:iq:roster'><item jid='a@b.c' subscription='both'/></query>",
+    'version': "<query xmlns='jabber:iq:version'/>",
+    'time': "<time xmlns='urn:xmpp:time'/>",
+    'disco-info': "<query xmlns='http://jabber.org/protocol/disco#info'/>",
+    'disco-info-node': "<query xmlns='http://jabber.org/protocol/disco#info' node='urn:example:unknown'/>",
+    'disco-items': "<query xmlns='http://jabber.org/protocol/disco#items'/>",
+    'unknown': "<unknown xmlns='urn:example:nothing'/>",
+    'none': '',
+    'two-children': "<unknown xmlns='urn:example:nothing'/><query xmlns='jabber:iq:version'/>",
+}
+RELEVANT = {'VCard': ['vcard'], 'Roster': ['roster', 'roster-item'], 'Version': ['version', 'two-children'], 'Time': ['time'],
+            'Disco': ['disco-info', 'disco-info-node', 'disco-items']}
+
+
+def corpus(payload_keys=None):
+    out = []
+    for pk, payload in PAYLOADS.items():
+        if payload_keys and pk not in payload_keys:
+            continue
+        for typ in ('get', 'set', 'result', 'error'):
+            for frm in FROMS:
+                xml = "<iq xmlns='jabber:client' id='q1' type='%s'%s to='%s/here'>%s</iq>" % (typ, (" from='%s'" % frm) if frm else '', OWN_BARE, payload)
+                out.append({'payload': pk, 'type': typ, 'from': frm, 'xml': xml})
+    return out
+
+
+def finding_of(c):
+    """which recorded finding (discriminator) a corpus stanza belongs to"""
+    if c['payload'] == 'vcard' and c['type'] in ('get', 'set'):
+        return 'C08-vcard-request-swallowed'
+    authorised = c['from'] is None or c['from'] == OWN_BARE or c['from'].startswith(OWN_BARE + '/')
+    if c['payload'].startswith('roster') and authorised and c['type'] == 'get':
+        return 'C08-roster-get-swallowed'
+    if c['payload'].startswith('roster') and c['type'] == 'set' and c['from'] and c['from'].startswith(OWN_BARE + '/'):
+        return 'C08-roster-set-own-resource-misaddressed'
+    return None
+
+
+def run_native(mode, xmls):
+    from vlib import native
+    rc, out = native.run_driver(os.path.join(HERE, 'replay_iq.cpp'), [mode] + list(xmls))
+    verdicts = re.findall(r'^CASE (\d+) .*POST=(ok|VIOLATED)$', out, re.M)
+    return rc, out, {int(n): v for n, v in verdicts}
+
+
+def native_corpus_summary():
+    """thorough tier, information only (it guards the trusted base, it decides nothing): the whole stanza corpus is run through
+    the real client in both modes and the set of violated cases is compared with the recorded findings' discriminators"""
+    try:
+        cases = corpus()
+        text = []
+        for mode in ('stream', 'inject'):
+            rc, out, verdicts = run_native(mode, [c['xml'] for c in cases])
+            bad = [cases[n - 1] for n, v in verdicts.items() if v == 'VIOLATED']
+            outside = [c for c in bad if finding_of(c) is None]
+            missing = [c for c in cases if finding_of(c) is not None and c not in bad]
+            text.append('native corpus (%s): %d stanzas, %d violate the end-to-end postcondition, %d of them outside the recorded findings, %d stanzas inside a finding class do not violate it'
+                        % (mode, len(cases), len(bad), len(outside), len(missing)))
+        return '; '.join(text)
+    except Exception as e:
+        return 'native corpus not run: %s' % e
+
+
+def find_input(unit, p, o, lab, work):
+    import json
+    open_ids = set()
+    try:
+        for f in json.load(open(os.path.join(HERE, 'findings.json'))):
+            if f.get('status') == 'open':
+                open_ids.add(f['id'])
+    except OSError:
+        pass
+    mode = 'inject' if p.id.startswith('Client_injectIq') else 'stream'
+    keys = RELEVANT.get(p.id.split('_')[0].split('.')[0])
+    cases = corpus(keys)
+    fid = getattr(p, 'finding', None)
+    if fid:
+        cases = [c for c in cases if finding_of(c) == fid]
+    else:
+        cases = [c for c in cases if finding_of(c) not in open_ids]
+    rc, out, verdicts = run_native(mode, [c['xml'] for c in cases])
+    bad = [cases[n - 1] for n, v in sorted(verdicts.items()) if v == 'VIOLATED']
+    if not bad:
+        return {'inputs': None, 'reproduced': False, 'native_search': '%d stanzas run through the real client (%s), none violates the end-to-end postcondition' % (len(cases), mode)}
+    c = bad[0]
+    line = [l for l in out.splitlines() if l.startswith('CASE %d ' % (cases.index(c) + 1))]
+    return {'inputs': {'mode': mode, 'stanza': c['xml'], 'own_jid': OWN_BARE + '/here'}, 'reproduced': True, 'native_output': line[0] if line else '',
+            'other_failing_inputs': [x['xml'] for x in bad[1:6]]}
+
+
+def native_replay(rp):
+    inp = rp['inputs']
+    rc, out, verdicts = run_native(inp['mode'], [inp['stanza']])
+    return (rc == 1 and verdicts.get(1) == 'VIOLATED'), out
